@@ -2,7 +2,7 @@
 
 use ec_core::operator::selector::lexicase::Lexicase;
 use ec_core::operator::selector::Selector;
-use ec_core::test_results::{Error as ErrRes, Score};
+use ec_core::test_results::{Error as ErrRes, Score, TestResults};
 use rand::rngs::StdRng;
 use rand::SeedableRng;
 use serde_json::{json, Value};
@@ -105,13 +105,16 @@ fn gen_matrix(seed: u64) -> (Vec<Vec<i64>>, bool) {
         splitmix(x)
     };
     let errors = next() % 2 == 0;
-    let style = next() % 6;
+    let style = next() % 8;
     let n = 1 + (next() % 8) as usize;
     let m = (next() % 6) as usize;
     let (n, m) = match style {
         0 => (n, m),
         1 => (1, m),         // singleton
         2 => (n, 0),         // zero cases
+        // more cases than individuals, heavy ties: most cases do not narrow the candidates,
+        // so an implementation that looks at too few of them lets dominated individuals win
+        6 | 7 => (2 + n % 3, 5),
         _ => (n.max(2), m.max(2)),
     };
     let mut matrix = vec![vec![0i64; m]; n];
@@ -127,7 +130,8 @@ fn gen_matrix(seed: u64) -> (Vec<Vec<i64>>, bool) {
                         (next() % 2) as i64
                     }
                 }
-                4 => (next() % 2) as i64, // heavy ties
+                4 | 6 => (next() % 2) as i64, // heavy ties
+                7 => i64::from(next() % 5 == 0), // very heavy ties
                 _ => (next() % 4) as i64,
             };
         }
@@ -177,7 +181,7 @@ fn gen_large(seed: u64, k: u64) -> (Vec<Vec<i64>>, bool) {
     (matrix, errors)
 }
 
-fn run_lexicase<R: Res + From<i64>>(pop: &Pop<R>, c: usize, trials: u64, seed: u64, name: &str, matrix: &[Vec<i64>], errors: bool, law: &[f64]) -> Result<Vec<u64>, Fail> {
+fn run_lexicase<R: Res>(pop: &Pop<R>, c: usize, trials: u64, seed: u64, name: &str, matrix: &[Vec<i64>], errors: bool, law: &[f64]) -> Result<Vec<u64>, Fail> {
     let lex = Lexicase::new(c);
     let mut rng = StdRng::seed_from_u64(seed);
     let mut counts = vec![0u64; pop.len()];
@@ -205,6 +209,31 @@ fn run_lexicase<R: Res + From<i64>>(pop: &Pop<R>, c: usize, trials: u64, seed: u
     Ok(counts)
 }
 
+/// Per-case results that are *groups* of sub-results (the crate's own `TestResults<R>` used as the
+/// per-case result type): a group is ordered by its total only, while two groups with the same
+/// total can differ in their parts, so ties have to be recognised by the ordering, not by `==`.
+fn grouped_population<R: Res + Copy + From<i64>>(matrix: &[Vec<i64>]) -> Pop<TestResults<R>> {
+    matrix
+        .iter()
+        .enumerate()
+        .map(|(i, row)| {
+            let groups: Vec<TestResults<R>> = row
+                .iter()
+                .enumerate()
+                .map(|(j, v)| {
+                    let parts: Vec<i64> = match (i + 2 * j) % 3 {
+                        0 => vec![*v],
+                        1 => vec![*v - 1, 1],
+                        _ => vec![0, *v, 0],
+                    };
+                    TestResults { results: parts.into_iter().map(R::from).collect(), total_result: R::from(*v) }
+                })
+                .collect();
+            ec_core::individual::ec::EcIndividual::new(i as u32, TestResults { results: groups, total_result: TestResults { results: vec![], total_result: R::from(0) } })
+        })
+        .collect()
+}
+
 fn jobs(seed: u64, n_matrices: u64, n_large: u64) -> (Vec<Job>, Vec<Value>, usize, usize) {
     let mut n_discriminating = 0usize;
     let mut n_partial = 0usize;
@@ -226,7 +255,8 @@ fn jobs(seed: u64, n_matrices: u64, n_large: u64) -> (Vec<Job>, Vec<Value>, usiz
         let dist = |a: &[f64], b: &[f64]| a.iter().zip(b).map(|(x, y)| (x - y).abs()).fold(0.0, f64::max);
         let discriminating = dist(&law, &no_shuffle) > 0.02 && dist(&law, &first_only) > 0.02;
         n_discriminating += usize::from(discriminating);
-        let name = format!("Lexicase({c}) {} matrix #{k} {matrix:?}", if errors { "errors" } else { "scores" });
+        let grouped = splitmix(ms ^ 0x6E0) % 4 == 0;
+        let name = format!("Lexicase({c}) {}{} matrix #{k} {matrix:?}", if grouped { "grouped " } else { "" }, if errors { "errors" } else { "scores" });
         if descr.len() < 6 || (discriminating && descr.len() < 12) || (c < m && descr.len() < 16) {
             descr.push(json!({"matrix": matrix, "configured_cases": c, "errors_polarity": errors, "law": law, "law_without_shuffle": no_shuffle, "law_first_case_only": first_only, "discriminating": discriminating, "readings": rd.len()}));
         }
@@ -238,7 +268,11 @@ fn jobs(seed: u64, n_matrices: u64, n_large: u64) -> (Vec<Job>, Vec<Value>, usiz
             run: Box::new(move |trials, seed| {
                 // the considered columns under the crate's reading, for the wording of a support violation
                 let considered: Vec<Vec<i64>> = matrix2.iter().map(|r| r[..c.min(r.len())].to_vec()).collect();
-                let counts = if errors {
+                let counts = if grouped && errors {
+                    run_lexicase(&grouped_population::<ErrRes<i64>>(&matrix2), c, trials, seed, &name2, &considered, errors, &support)?
+                } else if grouped {
+                    run_lexicase(&grouped_population::<Score<i64>>(&matrix2), c, trials, seed, &name2, &considered, errors, &support)?
+                } else if errors {
                     let pop = population::<ErrRes<i64>>(&matrix2, |r| ErrRes(r.iter().sum()));
                     run_lexicase(&pop, c, trials, seed, &name2, &considered, errors, &support)?
                 } else {
@@ -265,7 +299,7 @@ fn jobs(seed: u64, n_matrices: u64, n_large: u64) -> (Vec<Job>, Vec<Value>, usiz
 pub fn run(ctx: &mut Ctx) {
     let (n_matrices, trials) = ctx.tier.pick((400u64, 400_000u64), (8_000, 2_000_000));
     let n_large = ctx.tier.pick(12u64, 120);
-    ctx.rule = format!("{n_matrices} generated result matrices (1..8 individuals x 0..5 cases, values 0..3, specialists / heavy ties / groups of exact copies / singleton / zero cases, both polarities), plus {n_large} larger ones (12..100 individuals x 6..8 cases), configured case count = number of results in 3 of 5 matrices and a smaller count (0 included) otherwise; {trials} seeded draws each through the real Lexicase. Oracle: the exact law P(i) = sum over all case orders [i survives] / (|survivors| * c!) with an independent definition of 'better'; every draw: P(winner) > 0 (never dominated) exactly; frequencies by the Chernoff/KL rule. non-trivial = a (matrix, individual) statistic with 0 < p < 1");
+    ctx.rule = format!("{n_matrices} generated result matrices (1..8 individuals x 0..5 cases, values 0..3, specialists / heavy ties / groups of exact copies / singleton / zero cases / more cases than individuals, both polarities; in a quarter of the matrices every per-case result is a group of sub-results - the crate's TestResults as the per-case type - ordered by its total, so that equal-ranking results need not be structurally equal), plus {n_large} larger ones (12..100 individuals x 6..8 cases), configured case count = number of results in 3 of 5 matrices and a smaller count (0 included) otherwise; {trials} seeded draws each through the real Lexicase. Oracle: the exact law P(i) = sum over all case orders [i survives] / (|survivors| * c!) with an independent definition of 'better'; every draw: P(winner) > 0 (never dominated) exactly; frequencies by the Chernoff/KL rule. non-trivial = a (matrix, individual) statistic with 0 < p < 1");
     ctx.assumptions.push("for a configured case count c smaller than the number of results the statement does not say which c cases are considered: the law of every fixed c-subset and of a uniformly random c-subset are all accepted (the observed frequencies are judged against the reading that fits them best), and a winner only has to be possible under one of them".into());
     let (jobs, descr, discriminating, partial) = jobs(ctx.seed, n_matrices, n_large);
     ctx.extra.insert("matrices_with_fewer_configured_cases_than_results".into(), json!(partial));
